@@ -55,10 +55,15 @@ class Line:
         return (self.ret, self.threw, tuple(self.dst), tuple(self.src), self.live)
 
 
+HEAD = re.compile(r"^(CASE|STD) (\S+) (\S+) (\S+) n=(\d+) k=(-|\d+) \|\s*$")
+
+
 def parse(out):
-    """-> (case lines, std lines, problems) ; problems = CRASH / LEAK / unparsable lines, missing END"""
+    """-> (case lines, std lines, problems); problems = list of (case name or None, text): a crash inside a call (the head of
+    its line was flushed before the call), LEAK lines, unparsable lines, missing END"""
     cases, stds, problems = {}, {}, []
     ended = False
+    crashed = None
     for raw in out.split("\n"):
         raw = raw.rstrip()
         if not raw or raw.startswith("MEMDRV"):
@@ -68,7 +73,17 @@ def parse(out):
             continue
         m = LINE.match(raw)
         if not m:
-            problems.append(raw[:300])
+            h = HEAD.match(raw)
+            if h:
+                crashed = "%s %s %s n=%s k=%s" % (h.group(2), h.group(3), h.group(4), h.group(5), h.group(6))
+                if h.group(1) == "STD":
+                    crashed = "(reference run) " + crashed
+                continue
+            if raw.startswith("CRASH") and crashed:
+                problems.append((crashed, "the call crashed / was aborted by a sanitizer (%s)" % raw))
+                crashed = None
+                continue
+            problems.append((None, raw[:300]))
             continue
         ln = Line()
         ln.tag, ln.algo, ln.it, ln.el = m.group(1), m.group(2), m.group(3), m.group(4)
@@ -84,7 +99,7 @@ def parse(out):
         ln.text = raw
         (cases if ln.tag == "CASE" else stds)[ln.key()] = ln
     if not ended:
-        problems.append("driver did not reach END")
+        problems.append((None, "driver did not reach END"))
     return cases, stds, problems
 
 
@@ -114,9 +129,9 @@ def build_and_run(tier):
                 c1, s1, p1 = parse(so)
                 cases.update(c1)
                 stds.update(s1)
-                problems += ["%s: %s" % (nm, x) for x in p1]
+                problems += p1
                 if rc != 0:
-                    problems.append("%s: driver exit code %d: %s" % (nm, rc, se[-500:]))
+                    problems.append((None, "%s: driver exit code %d: %s" % (nm, rc, se[-500:])))
         return job, (cases, stds, problems, None)
 
     t0 = time.time()
@@ -206,7 +221,7 @@ def run_coq(items):
             continue
         body = block[block.index("=") + 1:]
         for inner in re.findall(r"\[([^\[\]]*)\]", body):
-            results.append([int(x) for x in inner.replace("%Z", "").replace("\n", " ").split(";") if x.strip()])
+            results.append([int(x) for x in inner.replace("%Z", "").replace("(", "").replace(")", "").replace("\n", " ").split(";") if x.strip()])
     if len(results) != len(items):
         return None, "expected %d results from coqc, parsed %d" % (len(items), len(results)), secs
     return results, "", secs
@@ -264,9 +279,10 @@ def check(report, tier):
             found.append((("build", where), {"case": "build memdrv", "std": std, "opt": opt, "expected": "memory.hpp compiles as " + std,
                                              "observed": berr[-1500:]}, "C15: memdrv does not build as %s\n%s" % (where, berr[-800:])))
             continue
-        for p in problems:
-            found.append((("problem", where, p[:40]), {"case": p, "std": std, "opt": opt, "expected": "every group runs to completion",
-                                                       "observed": p}, "C15 [%s]: %s" % (where, p)))
+        for cname, p in problems:
+            grp = ("crash", " ".join((cname or p).split()[:1]), " ".join((cname or "").split()[2:3]), std)
+            found.append((grp, {"case": cname or p, "std": std, "opt": opt, "expected": "the call returns or throws the injected exception",
+                                "observed": p}, "C15 [%s] %s: %s" % (where, cname or "", p)))
         if ref_std and set(cases) != set(ref_std):
             missing = sorted(set(ref_std) - set(cases), key=str)[:3]
             extra = sorted(set(cases) - set(ref_std), key=str)[:3]
